@@ -165,19 +165,29 @@ def pay_ending(r, kind):
         ev += tail
     return ev
 
-def story_case(r, ending=None, npieces=None, reject=None, nhash=1, heights=True, cfg=None, amount=None, second=False, burst=False):
+def story_case(r, ending=None, npieces=None, reject=None, nhash=1, heights=True, cfg=None, amount=None, second=False, burst=False, amountless=False):
     """One payment from first HTLC to its fate. reject: None | (kind, position)"""
     cfg = cfg or mk_cfg(r)
     b = CaseBuilder(r, cfg, nhash)
     amount = amount or r.choice([1000000, 21000, 10**9, 1])
     pol = cfg["policy"]
-    inv = b.add_invoice(0, amount)
+    # amountless: the invoice names no amount, every HTLC declares it in the amount TLV (33003)
+    inv = b.add_invoice(0, None if amountless else amount)
+    atlv = amount if amountless else None
     need = fee_needed(pol, amount)
     total = need + r.choice([0, 0, 1, 5000])
     pieces = split_amount(r, total, npieces or (1 + r.below(3)))
-    hts = [b.htlc(inv, p, total, expiry=r.choice([1500, 2000, 2400, 70000]), rel=pol[2] + r.below(600)) for p in pieces]
+    hts = [b.htlc(inv, p, total, expiry=r.choice([1500, 2000, 2400, 70000]), rel=pol[2] + r.below(600), amount_tlv=atlv) for p in pieces]
     if reject:
         kind, pos = reject
+        if kind == "other_amount" and amountless:
+            # the SAME amountless invoice with a conflicting declared amount (lower, so that the declared total still covers it)
+            x = b.htlc(inv, r.choice([1, 1000]), total, amount_tlv=max(1, amount - r.choice([1, 7, amount // 2])))
+            if len(hts) < 2:
+                # at least two regular pieces, so that the conflicting one arrives while the set is incomplete
+                pieces = split_amount(r, total, 2 + r.below(2))
+                hts = [b.htlc(inv, p, total, expiry=r.choice([1500, 2000, 2400, 70000]), rel=pol[2] + r.below(600), amount_tlv=atlv) for p in pieces]
+            hts.insert(1 + pos % max(1, len(hts) - 1), x); reject = None
         if kind == "low_expiry": x = b.htlc(inv, r.choice([1000, total]), total, rel=r.choice([max(0, pol[2] - 1 - r.below(5)), 0, -1, -1 - r.below(1000), -2**31, -2**32 + 5, -2**63]))
         elif kind == "low_total": x = b.htlc(inv, 1000, max(0, need - 1 - r.below(3)))
         elif kind == "other_invoice": x = b.htlc(b.add_invoice(0, amount, ts=77), 1000, total)
@@ -203,10 +213,10 @@ def story_case(r, ending=None, npieces=None, reject=None, nhash=1, heights=True,
     if second:
         # a second, fully funded set for the same invoice arrives while/after the first lifecycle finishes its bookkeeping
         at = len(script) - 1 - r.below(4)
-        script.insert(max(0, at), b.htlc(inv, total, total, expiry=2200, rel=pol[2] + 50))
+        script.insert(max(0, at), b.htlc(inv, total, total, expiry=2200, rel=pol[2] + 50, amount_tlv=atlv))
         script += [{"e": "drain"}] + pay_ending(r, r.choice(PAY_ENDINGS)) + [{"e": "drain"}]
-    return {"cfg": cfg, "invoices": b.invoices, "preimages": b.preimages, "_script": script, "family": "%s/%s/%s%s" % ("burst" if burst else "story", ending, reject and reject[0], "/second" if second else ""),
-            "suffix": [{"e": "finale"}], "_b": b, "_probe": b.htlc(inv, total, total, expiry=5000, rel=pol[2] + 100)}
+    return {"cfg": cfg, "invoices": b.invoices, "preimages": b.preimages, "_script": script, "family": "%s/%s/%s%s%s" % ("burst" if burst else "story", ending, reject and reject[0], "/second" if second else "", "/amountless" if amountless else ""),
+            "suffix": [{"e": "finale"}], "_b": b, "_probe": b.htlc(inv, total, total, expiry=5000, rel=pol[2] + 100, amount_tlv=atlv)}
 
 def straggler_case(r, ending=None):
     """The first lifecycle's bookkeeping RPCs are withheld at some point after its pay ended while a second,
